@@ -6,8 +6,8 @@
    multi-value forms).  Every program is exported with the judgment's verdict.  The invariants are
    theorems of Go's type system that the judgment must satisfy on the whole space (symmetry of the
    symmetric operators, ==/!= and </>= duality, representability monotonicity, var/assign/argument coherence). *)
-EXTENDS Types, TLC, Json, SequencesExt
-CONSTANTS Tier          \* 1 quick, 2 thorough
+EXTENDS Types, TypesCfg, TLC, Json, SequencesExt
+\* Tier (1 quick, 2 thorough), Part, Parts come from TypesCfg: this TLC process handles the programs with index % Parts = Part
 
 (* ---------------------------------------------------------------- AST constructors *)
 Id(n) == [k |-> "id", name |-> n]
@@ -129,10 +129,22 @@ MiscE(L) == Flat(<<
       <<AssertE(Id("ve"), "any"), "assert", "any", "ve", "">>, <<AssertE(Id("va"), "[]int"), "assert", "[]int", "va", "">>,
       <<Id("f1"), "leaf", "", "f1", "">>, <<SliceLit(<<>>), "slicelit", "", "", "">> >> >>)
 
+LQ == Pick({"vi", "vi8", "vf", "vs", "vsl", "va", "1", "300", "1.5", "nil"})
+MiscTiny == << <<Call(Id("f1"), <<Id("vs")>>), "call", "f1", "vs", "">>, <<Call(Id("f1"), <<LitI(1)>>), "call", "f1", "1", "">>,
+   <<Call(Id("f0"), <<>>), "call", "f0", "", "">>, <<Call(Id("f2"), <<>>), "call", "f2", "", "">>,
+   <<Index(Id("vsl"), LitI(0)), "index", "vsl", "0", "">>, <<Index(Id("vm"), LitS), "index", "vm", "s", "">>, <<Index(Id("vs"), LitI(0)), "index", "vs", "0", "">>,
+   <<Index(LitS, LitI(0)), "index", "s", "0", "">>, <<SliceE(Id("vsl"), LitI(1)), "slice", "vsl", "1", "">>, <<SliceE(Id("vs"), LitI(1)), "sliceof", "1", "vs", "">>,
+   <<Builtin("len", <<Id("vs")>>), "builtin", "len", "vs", "">>, <<Builtin("len", <<LitS>>), "builtin", "len", "s", "">>,
+   <<Builtin("append", <<Id("vsl"), LitI(1)>>), "builtin", "append", "1", "">>, <<Builtin("make", <<LitI(1)>>), "builtin", "make", "1", "">>,
+   <<Builtin("panic", <<LitS>>), "builtin", "panic", "s", "">>, <<Builtin("delete", <<Id("vm"), LitS>>), "builtin", "delete", "s", "">>,
+   <<AssertE(Id("va"), "int"), "assert", "int", "va", "">>, <<AssertE(Id("va"), "error"), "assert", "error", "va", "">>,
+   <<SliceLit(<<LitI(1)>>), "slicelit", "", "1", "">>, <<MapLit(LitS, LitI(1)), "maplit", "val", "1", "">>, <<Id("f1"), "leaf", "", "f1", "">> >>
 EAll == LeafE(Leaves) \o UnE(UnOps, Leaves) \o BinE(BinOps, Leaves) \o ConvE(ConvTs, Leaves) \o MiscE(Leaves)
-EMid == LeafE(Leaves) \o UnE(UnOps, Leaves) \o BinE(BinOps, LMid) \o ConvE(ConvTs, Leaves) \o MiscE(LMid)
-ESmall == LeafE(Leaves) \o UnE(UnOps, LMid) \o BinE(BinOpsSmall, LSmall) \o ConvE(<<"int8", "float64", "string", "any">>, LMid) \o MiscE(LSmall)
-ETiny == LeafE(Leaves) \o UnE(UnOps, LSmall) \o BinE(<<"+", "<<", "==", "<">>, LTiny) \o ConvE(<<"int8", "string">>, LSmall) \o MiscE(LTiny)
+EMid == LeafE(Leaves) \o UnE(UnOps, Leaves) \o BinE(BinOps, LQ) \o ConvE(ConvTs, LSmall) \o MiscE(IF Tier = 1 THEN LTiny ELSE LSmall)
+ETiny == LeafE(Leaves) \o UnE(UnOps, LTiny) \o BinE(<<"+", "<<", "==", "<">>, LTiny) \o ConvE(<<"int8", "string">>, LTiny) \o MiscTiny
+ESmall == ETiny \o UnE(UnOps, Pick({"vf", "vsl", "va", "1.5", "300"})) \o BinE(<<"-", "/", "%", "&&">>, LTiny)
+          \o Pairs(<<"+", "==", "<<">>, Pick({"vf", "1.5", "300"}), LAMBDA op, l : <<Bin(op, Id("vi"), l[2]), "bin", op, "vi", l[1]>>)
+          \o Pairs(<<"+", "==", "<<">>, Pick({"vf", "1.5", "300"}), LAMBDA op, l : <<Bin(op, l[2], LitI(1)), "bin", op, l[1], "1">>)
 
 (* ---------------------------------------------------------------- statement contexts: name -> <<res, body>> *)
 AllTs == <<"int", "int8", "uint8", "float64", "string", "bool", "N", "*int", "[]int", "map[string]int", "func(int) int", "any", "error", "chan int", "NS">>
@@ -214,10 +226,9 @@ CtxBody(name, E) ==
 
 ExprCases(names, E) == Pairs(names, E, LAMBDA c, e : Prog("exprctx", c, <<e[2], e[3], e[4], e[5]>>, CtxRes(c), CtxBody(c, e[1])))
 
-KeyCtx == <<"var:int8", "var:float64", "var:any", "var:string", "asg:N", "asg:[]int", "if", "ret:int", "arg:f1", "index:sl", "shcount", "eqnil", "add1", "stmt", "lhs">>
-QuickCtx == <<"varinfer", "var:int8", "var:float64", "var:any", "var:*int", "var:NS", "asg:string", "asg:N", "asg:error", "if", "ret:int", "ret:none", "ret2",
-   "arg:f1", "arg:fvspread", "index:sl", "index:map", "shcount", "shleftf", "swtag", "swcase", "send", "eqnil", "add1", "opasg:vi", "incdec", "lhs",
-   "stmt", "go", "append", "make", "assert", "addr", "callit", "const:int8", "closureret", "selsend", "conv:float64", "conv:string">>
+KeyCtx == <<"var:int8", "var:float64", "var:any", "asg:N", "if", "arg:f1", "index:sl", "stmt">>
+QuickCtx == <<"varinfer", "var:int8", "var:float64", "var:any", "var:NS", "asg:string", "asg:error", "if", "ret:int", "ret2",
+   "arg:fvspread", "index:sl", "shcount", "shleftf", "swcase", "send", "eqnil", "incdec", "lhs", "stmt", "assert", "addr", "const:int8", "conv:string">>
 ExprProgs == IF Tier = 1 THEN ExprCases(<<"blank">>, EMid) \o ExprCases(QuickCtx, ETiny)
              ELSE ExprCases(<<"blank">>, EAll) \o ExprCases(KeyCtx, EMid) \o ExprCases(CtxNames, ESmall)
 
@@ -252,8 +263,8 @@ Labeled(res) == LET inner == << <<Break("L")>>, <<Continue("L")>>, <<For(<<Break
            Map1(inner, LAMBDA b : SwitchL("L", <<Case(<<Id("vb")>>, b), Dflt(<<RetFor(res)>>)>>)),
            Map1(inner, LAMBDA b : SelectL("L", <<CRecv(Id("vch"), b)>>)),
            Map1(inner, LAMBDA b : For(<<ForL("L", b)>>)) >>)
-TermBodies(res) == T0(res) \o Map1(S1(res), LAMBDA s : <<s>>) \o Map1(S1(res), LAMBDA s : <<s, Nop>>)
-                   \o (IF Tier = 1 THEN <<>> ELSE Map1(S2(res), LAMBDA s : <<s>>)) \o Map1(Labeled(res), LAMBDA s : <<s>>)
+TermBodies(res) == T0(res) \o Map1(S1(res), LAMBDA s : <<s>>)
+                   \o (IF Tier = 1 THEN <<>> ELSE Map1(S1(res), LAMBDA s : <<s, Nop>>) \o Map1(S2(res), LAMBDA s : <<s>>)) \o Map1(Labeled(res), LAMBDA s : <<s>>)
 TermProgs == Map1(TermBodies(<<"int">>), LAMBDA b : Prog("term", "int", NoDesc, <<"int">>, b))
              \o Map1(TermBodies(<<>>), LAMBDA b : Prog("term", "none", NoDesc, <<>>, b))
 
@@ -269,7 +280,7 @@ DeclAlphabet == <<
    Define(<<"vi", "a">>, <<LitI(1), LitI(2)>>), Define(<<"vi">>, <<LitI(1)>>) >>
 DeclSeqs == LET A == DeclAlphabet IN
    Map1(A, LAMBDA s : <<s>>) \o Pairs(A, A, LAMBDA s, t : <<s, t>>)
-   \o (IF Tier = 1 THEN <<>> ELSE Flat(Map1(A, LAMBDA s : Pairs(A, A, LAMBDA t, u : <<s, t, u>>))))
+   \o (IF Tier = 1 THEN <<>> ELSE LET B == SubSeq(A, 1, 13) IN Flat(Map1(B, LAMBDA s : Pairs(B, B, LAMBDA t, u : <<s, t, u>>))))
 DeclProgs == Map1(DeclSeqs, LAMBDA b : Prog("decl", "", NoDesc, <<>>, b))
 
 (* ---------------------------------------------------------------- B3: imports and top-level declarations *)
@@ -314,7 +325,8 @@ SelAlphabet == <<
    CRecv(Id("vch"), <<Define(<<"x">>, <<LitI(1)>>), Use("x")>>), CRecv(Id("vch"), <<Define(<<"x">>, <<LitI(1)>>)>>) >>
 SelBodies == LET A == SelAlphabet
                  sels == Map1(A, LAMBDA c : Select(<<c>>)) \o Pairs(A, A, LAMBDA c, d : Select(<<c, d>>)) IN
-   Map1(sels, LAMBDA s : <<s>>) \o Map1(sels, LAMBDA s : <<s, Use("x")>>) \o Map1(sels, LAMBDA s : <<Define(<<"x">>, <<LitS>>), s, Use("x")>>)
+   Map1(sels, LAMBDA s : <<s>>)
+   \o (IF Tier = 1 THEN <<>> ELSE Map1(sels, LAMBDA s : <<s, Use("x")>>) \o Map1(sels, LAMBDA s : <<Define(<<"x">>, <<LitS>>), s, Use("x")>>))
 SwScope == <<
    <<Switch(<<Case(<<Id("vb")>>, <<Define(<<"x">>, <<LitI(1)>>), Use("x")>>), Case(<<Id("true")>>, <<Define(<<"x">>, <<LitS>>), Use("x")>>)>>)>>,
    <<Switch(<<Case(<<Id("vb")>>, <<Define(<<"x">>, <<LitI(1)>>), Use("x")>>), Case(<<Id("true")>>, <<Use("x")>>)>>)>>,
@@ -339,14 +351,14 @@ ScopeProgs == Map1(SelBodies, LAMBDA b : Prog("selscope", "", NoDesc, <<>>, b)) 
 
 (* ---------------------------------------------------------------- B5: calls (arity, variadic, spread) and multi-value forms *)
 CallFuncs == <<"f0", "f1", "f2", "f3", "fv", "fvs", "vfn", "vi">>
-ArgLeaves == <<LitI(1), LitS, Id("vi"), Id("vs"), Id("vsl"), Id("nil"), Call(Id("f2"), <<>>), LitF>>
+ArgLeaves == IF Tier = 1 THEN <<LitI(1), LitS, Id("vsl"), Id("nil"), Call(Id("f2"), <<>>)>>
+             ELSE <<LitI(1), LitS, Id("vi"), Id("vs"), Id("vsl"), Id("nil"), Call(Id("f2"), <<>>), LitF>>
 ArgLists == << <<>> >> \o Map1(ArgLeaves, LAMBDA a : <<a>>) \o Pairs(ArgLeaves, ArgLeaves, LAMBDA a, b : <<a, b>>)
             \o (IF Tier = 1 THEN <<>> ELSE Flat(Map1(<<LitI(1), LitS, Id("vsl")>>, LAMBDA a : Pairs(ArgLeaves, ArgLeaves, LAMBDA b, c : <<a, b, c>>))))
 CallExprs == Pairs(CallFuncs, ArgLists, LAMBDA f, as : Call(Id(f), as))
              \o Pairs(CallFuncs, SelectSeq(ArgLists, LAMBDA as : Len(as) \in {1, 2}), LAMBDA f, as : CallS(Id(f), as))
 CallProgs == Map1(CallExprs, LAMBDA c : Prog("call", "stmt", NoDesc, <<>>, <<ExprS(c)>>))
-             \o Map1(CallExprs, LAMBDA c : Prog("call", "blank", NoDesc, <<>>, <<Blank(c)>>))
-             \o (IF Tier = 1 THEN <<>> ELSE Map1(CallExprs, LAMBDA c : Prog("call", "define2", NoDesc, <<>>, <<Define(<<"a", "b">>, <<c>>), Use("a"), Use("b")>>)))
+             \o (IF Tier = 1 THEN <<>> ELSE Map1(CallExprs, LAMBDA c : Prog("call", "blank", NoDesc, <<>>, <<Blank(c)>>)))
 MvRhs == << <<Call(Id("f2"), <<>>)>>, <<Index(Id("vm"), LitS)>>, <<RecvVch>>, <<AssertE(Id("va"), "int")>>, <<Id("vi")>>, <<Call(Id("f1"), <<LitI(1)>>)>>,
             <<LitI(1), LitS>>, <<LitI(1), Id("true")>>, <<Call(Id("f0"), <<>>)>>, <<LitI(1), LitS, LitI(2)>>, <<Call(Id("f2"), <<>>), LitI(1)>>,
             <<Index(Id("vsl"), LitI(0))>>, <<Index(Id("vs"), LitI(0))>>, <<Builtin("len", <<Id("vs")>>)>> >>
@@ -364,53 +376,61 @@ MvProgs == Flat(Map1(MvRhs, LAMBDA r : <<
 
 (* ---------------------------------------------------------------- the case set *)
 Progs == ExprProgs \o TermProgs \o DeclProgs \o ImportProgs \o TopProgs \o ScopeProgs \o CallProgs \o MvProgs
-\* verdict computed once per program (TLC caches constant definitions)
-Verdicts == [i \in 1..Len(Progs) |-> Verdict(Progs[i])]
-Cases == [i \in 1..Len(Progs) |-> [id |-> i, verdict |-> IF Verdicts[i] = "ok" THEN "accept" ELSE IF Verdicts[i] = "undef" THEN "undef" ELSE "reject",
-                                    rule |-> Verdicts[i], prog |-> Progs[i]]]
+Verd3(v) == IF v = "ok" THEN "accept" ELSE IF v = "undef" THEN "undef" ELSE "reject"
+MineSeq == SetToSeq({j \in 1..Len(Progs) : j % Parts = Part})
+\* (this module declares no CONSTANTS, so TLC evaluates Progs and Cases once, at start-up)
+Cases == [n \in 1..Len(MineSeq) |-> LET j == MineSeq[n] v == Verdict(Progs[j]) IN [id |-> j, verdict |-> Verd3(v), rule |-> v, prog |-> Progs[j]]]
 ASSUME ndJsonSerialize("cases.ndjson", Cases)
 
-(* ---------------------------------------------------------------- model check: one state per program *)
-VARIABLE i
-Init == i \in 1..Len(Progs)
-Next == UNCHANGED i
+(* ---------------------------------------------------------------- model check: one state per program.
+   n = 0 is the root, n = -b a block of BlockSize programs (so that TLC's workers share the programs), n > 0 the
+   n-th program of this process. *)
+VARIABLE n
+BlockSize == 64
+NBlocks == (Len(Cases) + BlockSize - 1) \div BlockSize
+Init == n = 0
+Next == \/ n = 0 /\ n' \in {-b : b \in 1..NBlocks}
+        \/ n < 0 /\ n' \in {m \in 1..Len(Cases) : (m - 1) \div BlockSize = -n - 1}
+prog == Cases[n].prog
+verd == Cases[n].rule
 
 Acc(p) == LET v == Verdict(p) IN IF v = "undef" THEN "undef" ELSE IF v = "ok" THEN "accept" ELSE "reject"
-Same(p, q) == LET a == Acc(p) b == Acc(q) IN a = "undef" \/ b = "undef" \/ a = b
+AccI == Verd3(verd)      \* the program of this state
+SameI(q) == LET a == AccI b == Acc(q) IN a = "undef" \/ b = "undef" \/ a = b
 IsBlankBin(p) == p.grp = "exprctx" /\ p.ctx = "blank" /\ p.desc[1] = "bin"
 TheE(p) == p.body[1].es[1]
 WithE(p, e) == [p EXCEPT !.body = <<Blank(e)>>]
 \* x op y is well-typed iff y op x is, for the symmetric operators
-SymmetricOps == LET p == Progs[i] IN
+SymmetricOps == n > 0 => LET p == prog IN
    (IsBlankBin(p) /\ p.desc[2] \in {"+", "*", "&", "|", "^", "==", "!=", "&&", "||"})
-     => Same(p, WithE(p, Bin(TheE(p).op, TheE(p).y, TheE(p).x)))
+     => SameI(WithE(p, Bin(TheE(p).op, TheE(p).y, TheE(p).x)))
 \* == and != are defined on the same operands; so are < <= > >=, and x < y iff y > x
-ComparisonDuality == LET p == Progs[i] e == TheE(p) IN
+ComparisonDuality == n > 0 => LET p == prog e == TheE(p) IN
    IsBlankBin(p) =>
-      /\ (e.op = "==" => Same(p, WithE(p, Bin("!=", e.x, e.y))))
-      /\ (e.op = "<" => Same(p, WithE(p, Bin(">", e.y, e.x))) /\ Same(p, WithE(p, Bin("<=", e.x, e.y))) /\ Same(p, WithE(p, Bin(">=", e.x, e.y))))
+      /\ (e.op = "==" => SameI(WithE(p, Bin("!=", e.x, e.y))))
+      /\ (e.op = "<" => SameI(WithE(p, Bin(">", e.y, e.x))) /\ SameI(WithE(p, Bin("<=", e.x, e.y))) /\ SameI(WithE(p, Bin(">=", e.x, e.y))))
 \* ordered operands are comparable: x < y well-typed => x == y well-typed
-OrderedImpliesEq == LET p == Progs[i] e == TheE(p) IN
-   (IsBlankBin(p) /\ e.op = "<" /\ Acc(p) = "accept") => Acc(WithE(p, Bin("==", e.x, e.y))) # "reject"
+OrderedImpliesEq == n > 0 => LET p == prog e == TheE(p) IN
+   (IsBlankBin(p) /\ e.op = "<" /\ AccI = "accept") => Acc(WithE(p, Bin("==", e.x, e.y))) # "reject"
 \* what may initialise a variable of type T may be assigned to one and passed/returned as one
-VarAssignCoherence == LET p == Progs[i] IN
+VarAssignCoherence == n > 0 => LET p == prog IN
    (p.grp = "exprctx" /\ CtxKind(p.ctx)[2] = "var") =>
        LET t == CtxKind(p.ctx)[3] e == p.body[1].es[1] IN
-       /\ Same(p, [p EXCEPT !.body = <<Assign(<<Id(VarOf(t))>>, <<e>>)>>])
-       /\ Same(p, [p EXCEPT !.body = <<Return(<<e>>)>>, !.res = <<t>>])
-       /\ Same(p, [p EXCEPT !.body = <<Closure(<<t>>, <<Return(<<e>>)>>)>>])
+       /\ SameI([p EXCEPT !.body = <<Assign(<<Id(VarOf(t))>>, <<e>>)>>])
+       /\ SameI([p EXCEPT !.body = <<Return(<<e>>)>>, !.res = <<t>>])
+       /\ SameI([p EXCEPT !.body = <<Closure(<<t>>, <<Return(<<e>>)>>)>>])
 \* representability is monotone: what initialises both an int8 and a uint8 variable (necessarily an untyped constant
 \* or a context-typed shift) also initialises an int variable
-ReprMonotone == LET p == Progs[i] IN
-   (p.grp = "exprctx" /\ p.ctx = "var:int8" /\ Acc(p) = "accept") =>
+ReprMonotone == n > 0 => LET p == prog IN
+   (p.grp = "exprctx" /\ p.ctx = "var:int8" /\ AccI = "accept") =>
        LET e == p.body[1].es[1] IN
        Acc([p EXCEPT !.body = <<Var(<<"x">>, "uint8", <<e>>), Use("x")>>]) = "accept"
           => Acc([p EXCEPT !.body = <<Var(<<"x">>, "int", <<e>>), Use("x")>>]) = "accept"
 \* an accepted program stays accepted when an unrelated used declaration is appended; a rejected one stays rejected
-Weakening == LET p == Progs[i] IN
+Weakening == n > 0 => LET p == prog IN
    p.grp \in {"exprctx", "decl"} /\ ~(p.grp = "exprctx" /\ CtxKind(p.ctx)[2] \in {"ret", "ret:none", "ret2"})
-      => Same(p, [p EXCEPT !.body = <<Var(<<"zz">>, "int", <<>>), Use("zz")>> \o @])
+      => SameI([p EXCEPT !.body = <<Var(<<"zz">>, "int", <<>>), Use("zz")>> \o @])
 \* a terminating body keeps a function with results well-formed exactly when the body without results is (placement)
-TermPlacement == LET p == Progs[i] IN
-   (p.grp = "term" /\ p.res # <<>> /\ Acc(p) = "accept") => IsTerm(p.body)
+TermPlacement == n > 0 => LET p == prog IN
+   (p.grp = "term" /\ p.res # <<>> /\ AccI = "accept") => IsTerm(p.body)
 =============================================================================
